@@ -105,13 +105,16 @@ def run(chk, scratch):
                 "from the table must have an interval containing 0. non-trivial = features with include > 0 and exclude > 0, or carrying a C/S/M flag")
     if thorough:
         jobs = [(chk.seed * 100 + si, strat, dt) for si in range(5) for strat in DELTA for dt in ("nanopore", "pacbio_ccs")]
+        jobs += [(chk.seed * 100 + 7 + k, st, dt) for k, (st, dt) in enumerate((("default/--delta 0", "nanopore"), ("precise/--delta 0", "pacbio_ccs"),
+                                                                                 ("loose/--delta 3", "nanopore"), ("exact/--delta 5", "assembly")))]
     else:
         jobs = [(chk.seed * 100, "default", "nanopore"), (chk.seed * 100 + 1, "exact", "pacbio_ccs"),
-                (chk.seed * 100 + 2, "loose", "nanopore"), (chk.seed * 100 + 3, "precise", "assembly")]
+                (chk.seed * 100 + 2, "loose", "nanopore"), (chk.seed * 100 + 3, "precise", "assembly"),
+                (chk.seed * 100 + 4, "default/--delta 0", "nanopore"), (chk.seed * 100 + 5, "loose/--delta 3", "pacbio_ccs")]
 
     def one(job):
         seed, strat, dt = job
-        d = os.path.join(scratch, "w%d_%s_%s" % (seed, strat, dt))
+        d = os.path.join(scratch, "w%d_%s_%s" % (seed, strat.replace("/", "_").replace(" ", ""), dt))
         w = world2.rich_world(seed, n_chroms=3, genes_per_chrom=4, reads_per_t=6, hidden_cov=5, multimappers=False, unmapped=0,
                               zoo=tuple(z for z in world2.ZOO_ALL if z != "twins"))
         # twin features: annotated introns / exons that differ by 2..6 bp at one boundary, with reads exactly between the two
@@ -127,14 +130,16 @@ def run(chk, scratch):
                 rd.tags = [("RG", "g1")]
         pipeline.write_world(w, d)
         out = os.path.join(d, "out")
-        r = pipeline.run(d, out, data_type=dt, threads=1 + seed % 2, extra=["--count_exons", "--read_group", "tag:RG", "--matching_strategy", strat,
-                                                                  "--no_model_construction"])
+        # 'preset/--delta N': an explicit --delta overrides the tolerance of the preset (0 is a legal value: exact comparison)
+        explicit = ["--delta", strat.split("--delta ")[1]] if "--delta" in strat else []
+        r = pipeline.run(d, out, data_type=dt, threads=1 + seed % 2, extra=["--count_exons", "--read_group", "tag:RG", "--matching_strategy", strat.split("/")[0]] + explicit +
+                         ["--no_model_construction"])
         return job, d, w, out, r
     rows_checked = 0
     exact_rows = 0
     for job, d, w, out, r in runner.parallel(one, jobs, workers=8):
         seed, strat, dt = job
-        delta = DELTA[strat]
+        delta = int(strat.split("--delta ")[1]) if "--delta" in strat else DELTA[strat]
         desc = "world=%d matching=%s (delta %d) data_type=%s" % (seed, strat, delta, dt)
         wit = {"world_seed": seed, "matching_strategy": strat, "data_type": dt}
         if r["rc"] is None:
